@@ -78,8 +78,8 @@ class UnitBuilder:
                 out.append((q, vars_))
         return out
 
-    def unit_text(self, selfstubs, canaries, roots):
-        key = (tuple(sorted(selfstubs)), tuple(sorted(canaries)), tuple(sorted(roots)))
+    def unit_text(self, selfstubs, canaries, roots, slices=()):
+        key = (tuple(sorted(selfstubs)), tuple(sorted(canaries)), tuple(sorted(roots)), tuple(slices))
         if key in self.text_cache: return self.text_cache[key]
         # a fresh translation state (declarations/index are shared)
         u = self.load()
@@ -89,6 +89,7 @@ class UnitBuilder:
             setattr(u2, attr, getattr(u, attr))
         u2.hooks = SpecHooks(self.uspec)
         u2.self_stub = set(selfstubs); u2.canary_fns = set(canaries)
+        u2.switch_slice = {(fn, k): (i, n) for (fn, k, i, n) in slices}
         u2.by_contract = set()
         for pat in self.uspec.by_contract:
             u2.by_contract |= set(self.glob_fns(pat))
@@ -136,7 +137,8 @@ def run_query(builder, q, vars_, tier, workroot):
         target = targets[0]; res.target = target
         selfstubs = {target} if q.selfstub else set()
         canaries = {target}
-        text, u2 = builder.unit_text(selfstubs, canaries, {target})
+        slices = tuple((subst(fn, vars_).replace('TARGET', target), k, int(subst(i, vars_)), n) for (fn, k, i, n) in q.switch_slice)
+        text, u2 = builder.unit_text(selfstubs, canaries, {target}, slices)
         tnode = u2.fn_by_cname[target]
         # harness
         params = []
@@ -177,6 +179,39 @@ def run_query(builder, q, vars_, tier, workroot):
         rc, so, se, dt = run(['goto-cc', '-I' + SHIMS, '--function', 'harness', cfile, '-o', gb1], 120)
         if rc != 0:
             res.reason = 'goto-cc failed: ' + (so + se)[-1500:]; return res
+        if q.pre_unwind:
+            rc, so, se, dt = run(['goto-instrument', '--show-loops', gb1], 120)
+            loops = re.findall(r"Loop (\S+):\n\s+file \S+ line (\d+) function (\S+)", so)
+            clines = ctext.split('\n')
+            us = []
+            for (fnpat, k, n) in q.pre_unwind:
+                fnc = subst(fnpat, vars_).replace('TARGET', target)
+                # header line of loop k of that function: first line at/before the '/*@loop k*/' marker inside the function
+                fstart = None
+                for i, l in enumerate(clines):
+                    if re.match(r"^[\w\s\*]+\b%s\(" % re.escape(fnc), l) and not l.rstrip().endswith(';'):
+                        fstart = i; break
+                if fstart is None:
+                    res.reason = 'pre-unwind: function %s not found' % fnc; return res
+                hline = None
+                for i in range(fstart, len(clines)):
+                    if clines[i] == '}': break
+                    if '/*@loop %d*/' % k in clines[i]:
+                        hline = i; break
+                if hline is None:
+                    res.reason = 'pre-unwind: loop %d of %s not found' % (k, fnc); return res
+                # the loop header is the nearest preceding line starting a for/while/do
+                j = hline
+                while j > fstart and not re.match(r"\s*(for|while|do)\b", clines[j]): j -= 1
+                ids = [lid for (lid, line, fn) in loops if fn == fnc and int(line) == j + 1]
+                if len(ids) != 1:
+                    res.reason = 'pre-unwind: loop %d of %s (C line %d) matches %d goto loops' % (k, fnc, j + 1, len(ids)); return res
+                us.append('%s:%d' % (ids[0], n))
+            gb1u = os.path.join(qdir, 'a_unwound.gb')
+            rc, so, se, dt = run(['goto-instrument', '--unwindset', ','.join(us), '--unwinding-assertions', gb1, gb1u], 300)
+            if rc != 0:
+                res.reason = 'pre-unwind failed: ' + (so + se)[-1500:]; return res
+            gb1 = gb1u
         gi = ['goto-instrument', '--dfcc', 'harness']
         if not q.no_enforce: gi += ['--enforce-contract', target]
         for r in sorted(replace): gi += ['--replace-call-with-contract', r]
@@ -188,7 +223,7 @@ def run_query(builder, q, vars_, tier, workroot):
         obits = q.object_bits or 8
         while True:
             cb = ['cbmc', gb2] + DEFAULT_CHECKS + ['--json-ui', '--object-bits', str(obits), '--no-malloc-may-fail']
-            if q.unwindset: cb += ['--unwindset', ','.join(subst(x, vars_).replace('TARGET', target) for x in q.unwindset)]
+            if q.unwindset: cb += ['--unwindset', ','.join(subst(x, vars_).replace('TARGET', target + '_wrapped_for_contract_checking') for x in q.unwindset)]
             cb += [subst(f, vars_) for f in q.flags]
             rc, so, se, dt = run(cb, timeout)
             if rc != 'timeout' and 'too many addressed objects' in so and obits < 16:
@@ -218,7 +253,9 @@ def run_query(builder, q, vars_, tier, workroot):
             line = int(loc['line']) if loc.get('line') else None
             fn = loc.get('function', '')
             if desc.startswith('canary.'):
-                res.canaries[desc] = st; continue
+                # unwound copies of one canary: reachable if any copy is
+                if res.canaries.get(desc) != 'FAILURE': res.canaries[desc] = st
+                continue
             if desc.startswith('canary_other'): continue
             labels = lm.get(line, []) if line else []
             cls = prop.split('.')[-2] if prop.count('.') >= 2 else prop
